@@ -506,8 +506,26 @@ class HyperscanTokenizer(Tokenizer):
         text_bytes = text.encode("utf8")
         matches = []
 
+        # Hyperscan matches bytes, so a boundary like [^a-zA-Z0-9] can match
+        # just one byte of a multi-byte character next to a citation. Move
+        # such offsets outward to the edge of that character, instead of
+        # discarding the match below because it can't be decoded:
+        text_len = len(text_bytes)
+
+        def char_start(offset):
+            while 0 < offset < text_len and text_bytes[offset] & 0xC0 == 0x80:
+                offset -= 1
+            return offset
+
+        def char_end(offset):
+            while offset < text_len and text_bytes[offset] & 0xC0 == 0x80:
+                offset += 1
+            return offset
+
         def on_match(index, start, end, flags, context):
-            matches.append((self.extractors[index], (start, end)))
+            matches.append(
+                (self.extractors[index], (char_start(start), char_end(end)))
+            )
 
         self.hyperscan_db.scan(text_bytes, match_event_handler=on_match)
 
